@@ -54,6 +54,8 @@ for d in sorted(x for x in os.listdir(out) if re.fullmatch(re.escape(pid) + r'-\
             rcc, oc = sh(f'./check {c} --tier quick', cwd='/verif', env=dict(os.environ, VERIF_REPO=wt))
             m = [l for l in oc.splitlines() if f'property={c}' in l and ('VIOLATION' in l or l.startswith('OK'))]
             wt_caught[c] = (m[0][:200] if m else 'no output: ' + oc[-200:])
+        # the check regenerated lean/Pkgcore/Generated/*Tables.lean from the PATCHED worktree: restore the committed tables
+        sh('git -C /verif checkout -- lean/Pkgcore/Generated')
     sh(f'git -C {wt} checkout -- . ')
     base_ok = 'missing=0' in ob
     ran.append(f'scratch worktree: demo exit {rc0} on HEAD, exit {rc1} with patch; baseline with patch: {ob.strip().splitlines()[-1] if ob.strip() else rcb}')
